@@ -57,7 +57,7 @@ def pair_implicit_output(c, rng):
         if len(c.ins) == 1 or len(parents) == 1:
             k = 0 if len(c.ins) == 1 else parents[0]
             return ("implicit_output", ins, {}, ins + " -> " + text(c.ins[k]), {})
-    if c.family == "update_at":
+    if c.family == "update_at" and getattr(c, "out_perm", None) is None:
         return ("implicit_output", ins, {}, ins + " -> " + text(c.ins[0]), {})
     return None
 
